@@ -2,7 +2,10 @@ package p9p
 
 // C02 - no frame written to a connection ever exceeds msize.
 
-import "context"
+import (
+	"context"
+	"time"
+)
 
 func vC02Msize() int {
 	m := ndU32("msize")
@@ -121,6 +124,65 @@ func VerifC02_Cancelled() {
 	vAssert(err != nil, "C02: cancelled context => error")
 	vAssert(len(conn.out) == 0, "C02: cancelled context => nothing emitted")
 	vReach("c02.cancelled")
+}
+
+// vLateCtx is a context whose cancellation becomes visible at the n-th
+// observation (Done or Err): cancellation is asynchronous, so a context that
+// is live when a write starts may end at any point during it.
+type vLateCtx struct {
+	n, seen int
+	done    chan struct{}
+}
+
+func (c *vLateCtx) look() bool {
+	c.seen++
+	if c.seen > c.n && c.done != nil {
+		select {
+		case <-c.done:
+		default:
+			close(c.done)
+		}
+		return true
+	}
+	return c.seen > c.n
+}
+func (c *vLateCtx) Deadline() (time.Time, bool) { return time.Time{}, false }
+func (c *vLateCtx) Done() <-chan struct{} {
+	c.look()
+	return c.done
+}
+func (c *vLateCtx) Err() error {
+	if c.look() {
+		return context.Canceled
+	}
+	return nil
+}
+func (c *vLateCtx) Value(key interface{}) interface{} { return nil }
+
+// A context that ends while the write is in progress: the failed write emits
+// nothing - neither now nor together with a later write on the same channel.
+func VerifC02_CancelDuring() {
+	kind := []FcallType{Tclunk, Twrite, Rread, Tversion}[ndChoice("kind", 4)]
+	msg1 := ndMessage(kind, &vShapeTiny)
+	tag1 := Tag(ndU16("tag1"))
+	conn := &vCaptureConn{}
+	ch := vC02Chan(conn, 64)
+	ctx := &vLateCtx{n: ndChoice("k", 5), done: make(chan struct{})}
+	err := ch.WriteFcall(ctx, &Fcall{Type: kind, Tag: tag1, Message: msg1})
+	var want []byte
+	if err == nil {
+		want = vFrame(refEncode(kind, tag1, msg1))
+		vReach("c02.during.sent")
+	} else {
+		vReach("c02.during.failed")
+	}
+	vAssertEqBytes(conn.out, want, "C02: a write emits exactly one frame, or nothing at all and an error")
+	tag2 := Tag(ndU16("tag2"))
+	msg2 := MessageTclunk{Fid: Fid(ndU32("fid2"))}
+	err2 := ch.WriteFcall(vBG, &Fcall{Type: Tclunk, Tag: tag2, Message: msg2})
+	vAssert(err2 == nil, "C02: a later write on the same channel succeeds")
+	want = append(want, vFrame(refEncode(Tclunk, tag2, msg2))...)
+	vAssertEqBytes(conn.out, want, "C02: a later write emits exactly its own frame (nothing left over from a failed write)")
 }
 
 type vCausal struct{ cause error }
